@@ -260,7 +260,7 @@ func (e *Exec) indexAddr(fr *Frame, st *State, x *ssa.IndexAddr) Value {
 		if _, ok := et.Underlying().(*types.Struct); ok {
 			return e.elemRef(id, abs)
 		}
-		return &Loc{Kind: LElem, Comp: "A_" + sortKey(sortOf(et)), Ref: id, Idx: abs, Type: et}
+		return &Loc{Kind: LElem, Comp: arrComp(et), Ref: id, Idx: abs, Type: et}
 	case *types.Pointer:
 		arr, ok := u.Elem().Underlying().(*types.Array)
 		if !ok {
@@ -281,7 +281,7 @@ func (e *Exec) indexAddr(fr *Frame, st *State, x *ssa.IndexAddr) Value {
 		if _, ok := et.Underlying().(*types.Struct); ok {
 			return e.elemRef(id, idx)
 		}
-		return &Loc{Kind: LElem, Comp: "A_" + sortKey(sortOf(et)), Ref: id, Idx: idx, Type: et}
+		return &Loc{Kind: LElem, Comp: arrComp(et), Ref: id, Idx: idx, Type: et}
 	}
 	panic(unsupported{"IndexAddr on " + x.X.Type().String()})
 }
@@ -916,7 +916,7 @@ func (e *Exec) makeSlice(fr *Frame, st *State, x *ssa.MakeSlice) Value {
 	et := x.Type().Underlying().(*types.Slice).Elem()
 	if _, isStruct := et.Underlying().(*types.Struct); !isStruct {
 		s := sortOf(et)
-		comp := "A_" + sortKey(s)
+		comp := arrComp(et)
 		h := e.heapRead(st, comp, ArrSort(ArrSort(s)))
 		z := e.asTerm(st, e.zeroOf(et), et)
 		st.heap[comp] = e.def(h.Sort, Store(h, id, &Term{fmt.Sprintf("((as const %s) %s)", ArrSort(s), z.S), ArrSort(s)}))
